@@ -142,6 +142,15 @@ class SymDict(object):
         return "<SymDict %s %d entries%s>" % (self.name, len(self.entries), "" if self.closed else " +rest")
 
 
+class SymSeq(object):
+    """symbolic list of unbounded length: z3 sequence of Val (heap objects appear as allocated VRef ids)"""
+
+    def __init__(self, name, term=None):
+        self.name = name
+        self.t = term if term is not None else z3.Const(name, z3.SeqSort(Val))
+        self.t0 = self.t
+
+
 class SymSet(object):
     """symbolic set of scalars: membership predicate as a z3 array Val -> Bool"""
 
@@ -205,6 +214,7 @@ class PathResult(object):
         self.extra = extra or {}
         self.notes = list(path.notes)
         self.abstract = path.abstract
+        self.pc_ids = dict(path.pc_ids)
 
 
 class Engine(object):
@@ -341,18 +351,26 @@ class Engine(object):
                     self.path.pc_ids[a.arg(0).get_id()] = False
 
     def assume(self, cond):
-        cond = as_bool(B(cond))
-        if cond is True:
+        raw = B(cond)
+        c2 = as_bool(raw)
+        if c2 is True:
             return
-        if cond is False:
+        if c2 is False:
             raise Infeasible()
-        self._add_pc(cond)
+        self._add_pc(raw if (z3.is_and(raw) or z3.is_or(raw)) else c2)
 
     def decide(self, cond):
         """Fork on a boolean condition (python bool / z3 Bool / SBool)."""
         if isinstance(cond, sym.SBool):
             cond = cond.t
-        cond = as_bool(B(cond)) if not isinstance(cond, bool) else cond
+        if not isinstance(cond, bool):
+            raw = B(cond)
+            c2 = as_bool(raw)
+            if isinstance(c2, bool):
+                return c2
+            # keep the un-simplified term on the path: z3.simplify fuses regular memberships of one string into a single
+            # intersection, from which the solvers can no longer read off the individual conjuncts
+            cond = raw if (z3.is_and(raw) or z3.is_or(raw)) else c2
         if isinstance(cond, bool):
             return cond
         p = self.path
@@ -414,6 +432,22 @@ class Engine(object):
             kind = z3.simplify(sym.ref_kind(t))
             self.path.refs[key] = ("pending", name, t)
         return self.path.refs[key]
+
+    def ref_as_seq(self, v, name=None):
+        t = z3.simplify(Val.r(v.t))
+        key = ("q", t.get_id())
+        if key not in self.path.refs:
+            self.path.refs[key] = SymSeq("seq.%s" % (name or _pretty(t)))
+            self.path.refs[("qterm", t.get_id())] = t
+        return self.path.refs[key]
+
+    def ref_of(self, obj):
+        """Val term naming a heap object allocated by the code (concrete, pairwise distinct reference ids)"""
+        key = ("alloc", id(obj))
+        if key not in self.path.refs:
+            self.path.counter += 1
+            self.path.refs[key] = (obj, Val.VRef(z3.IntVal(10 ** 9 + self.path.counter)))
+        return self.path.refs[key][1]
 
     def ref_as_dict(self, v, name=None):
         t = z3.simplify(Val.r(v.t))
@@ -573,6 +607,8 @@ class Engine(object):
     def iterate(self, it, node=None, env=None):
         """concrete finite sequence of the elements of `it` (rule R1); symbolic collections need a loop rule"""
         if isinstance(it, (list, tuple)):
+            if any(type(x).__name__ == "Spread" for x in it):
+                raise Unsupported("iteration over a list with a symbolic part (needs a loop rule)")
             return list(it)
         if isinstance(it, SymDict):
             return [k for k, _ in self.models.dict_items(it)]
@@ -740,6 +776,7 @@ class Engine(object):
 
     def setattr_(self, o, name, v):
         if isinstance(o, Obj):
+            self.path.effects.append(("attr_write", o, name, o.fields.get(name, ABSENT), v))
             o.fields[name] = v
             return
         raise Unsupported("attribute store on %r" % (o,))
